@@ -467,6 +467,12 @@ void urcu_workqueue_create_worker(struct urcu_workqueue *workqueue)
 	workqueue->flags &= ~URCU_WORKQUEUE_PAUSED;
 	workqueue->flags &= ~URCU_WORKQUEUE_PAUSE;
 	workqueue->tid = 0;
+	/*
+	 * The parent's worker parked with its futex decrement already
+	 * done. The new worker thread does its own decrement: start
+	 * from 0, otherwise it never sleeps.
+	 */
+	workqueue->futex = 0;
 
 	ret = sigfillset(&newmask);
 	urcu_posix_assert(!ret);
